@@ -16,6 +16,18 @@ def gen_cases(tier):
         rng = family.rng_for(sd, PROP, i)
         inv = ["i", "s", "j"][: rng.randint(1, 3)]
         outv = ["o", "p"][: rng.randint(1, 2)]
+        if i % 10 == 4:
+            # coefficients that ADD UP to something small but not zero when one variable is renamed onto another (0.75 s - 0.5 t -> 0.25 t)
+            ca, cb = rng.choice([(0.75, -0.5), (0.5, -0.25), (-1.5, 1.25), (0.25, 0.125), (2.5, -2.25)])
+            d = {"inv": ["s", "t", "j"], "outv": ["o"], "a": [({"s": ca, "t": cb}, rng.randint(1, 3)), ({"j": 1}, 3)],
+                 "g": [({"o": 1, "s": -ca, "t": -cb}, rng.randint(0, 2))]}
+            pairs = [("s", "t"), ("t", "s"), ("s", "fresh")]
+            try:
+                gen.mk_contract(d)
+                cases.append({"id": i + 1, "raw": d, "pairs": pairs, "lists": [[("s", "tmp_v"), ("tmp_v", "t")], [("s", "t"), ("t", "n1")]]})
+                continue
+            except ValueError:
+                pass
         if i % 10 == 9:
             # coefficients that cancel when one variable is renamed onto another: the renamed row has no
             # variable left and means TRUE (bound >= 0) or FALSE (bound < 0)
@@ -59,8 +71,10 @@ def gen_cases(tier):
         pairs.append(("absent", "fresh"))
         pairs.append(("absent", rng.choice(inv)))
         pairs.append((rng.choice(inv), rng.choice(inv)))
+        absent = [("absent", "fresh"), ("absent", rng.choice(inv)), ("absent", rng.choice(outv))]
         if tier == "quick":
             pairs = pairs[:4] + rng.sample(pairs[4:], 4) if i % 3 == 1 else rng.sample(pairs, 6)
+        pairs = pairs + [p_ for p_ in absent if p_ not in pairs]
         allv = inv + outv
         a, b = rng.choice(allv), rng.choice(allv)
         if i % 3 == 1 and rng.random() < 0.7:
@@ -73,6 +87,7 @@ def gen_cases(tier):
             [(a, "n1"), ("absent", "n2"), (b, b)],
             [(a, "t_v"), (b, a), (a, "t_v")],                          # the same pair twice, its source re-created in between
             [(a, "n1"), ("n1", a), (a, "n1")],
+            [(a, "n1"), (a, rng.choice(inv))],                         # the second mapping names a source that is gone by then
         ]
         if tier == "quick":
             lists = rng.sample(lists, 4)
